@@ -1,15 +1,15 @@
-CONSTANTS Keys = {"a"}
-          NHol = 3
-          NWk = 2
+CONSTANTS Keys = {"a", "b"}
+          NHol = 5
+          NWk = 4
           NLo = 3
-          NHi = 2
+          NHi = 3
           ConAdjs = {"f", "p", "m"}
           ConFull = FALSE
           Rich = TRUE
-          MaxObj = 3
-          Depth = 4
+          MaxObj = 8
+          Depth = 10
           KeepHist = TRUE
           SetAdjs = {"f", "p", "m"}
-          Fan = 0
+          Fan = 4
 INIT Init
-NEXT NextSes
+NEXT NextGen
